@@ -29,6 +29,7 @@ from .. import Undecided
 from ..expr import canon, unparse, call_name
 from ..model import stmt_text
 from .. import drivers as D
+from ..lts import Classifier, extract, equivalent, compile_spec, seq, alt, star, lit
 
 EXPLANATION = __doc__
 LEVEL_RULE = 'one obligation per (driver | handler | format site | clause); distinct = distinct (rule, function, construct)'
@@ -58,81 +59,86 @@ def check_wrappers(ctx, only_unpack=False, rule_prefix='R7'):
     return drivers
 
 
+class _UnpackEvents(Classifier):
+    """events of the public entry Packet.unpack"""
+
+    def __init__(self, names, silent):
+        self.CLS, self.RAW, self.OFF, self.SILENT = names
+        self.silent = silent
+        self.pkt = None
+
+    def call(self, c):
+        f = canon(c.func)
+        if f == self.CLS:
+            kw = {k.arg: canon(k.value) for k in c.keywords if k.arg}
+            self.pkt = canon(c)
+            return ('new-packet' if kw.get('_initialize_fields') == 'False' and not c.args else 'new-packet[%s]' % canon(c)[:40], ())
+        if isinstance(c.func, ast.Attribute) and c.func.attr == 'unpack_impl':
+            a = D.args_of(c, ['raw', 'offset'])
+            good = a is not None and canon(a['raw']) == self.RAW and canon(a['offset']) == self.OFF and canon(c.func.value) == '<ev new-packet>'
+            return ('impl' if good else 'impl[%s]' % canon(c)[:60], ('ok', 'exc:PacketError', 'exc:Exception'))
+        return None
+
+    def test(self, text, e):
+        if text in ('isinstance(%s, bytes)' % self.RAW, 'isinstance(%s, (bytes,))' % self.RAW):
+            return 'raw-is-bytes'
+        return None
+
+    def truth(self, text, e):
+        if text == self.SILENT:
+            return self.silent
+        return None
+
+    def store(self, target, value):
+        if isinstance(target, ast.Attribute) and target.attr == 'packet' and canon(target.value).startswith('<exc '):
+            return 'attach-packet' if canon(value) == '<ev new-packet>' else 'attach[%s]' % canon(value)[:30]
+        return None
+
+    def ret(self, v):
+        if v is None or (isinstance(v, ast.Constant) and v.value is None):
+            return 'None'
+        return 'packet' if canon(v) == '<ev new-packet>' else canon(v)[:40]
+
+
+def _unpack_spec(silent):
+    fail = lambda cls: lit('return[None]') if silent else lit('raise[%s]' % cls)
+    return alt(seq(lit('raw-is-bytes-'), lit('raise[ValueError]')),
+               seq(lit('raw-is-bytes+'), lit('new-packet'),
+                   alt(seq(lit('impl:ok'), lit('return[packet]')),
+                       seq(lit('impl:exc:PacketError'), lit('attach-packet'), fail('PacketError')),
+                       seq(lit('impl:exc:Exception'), fail('Exception')))))
+
+
 def check_packet_unpack(ctx, rule):
+    """Packet.unpack as an event language: bytes check first (ValueError otherwise), a packet
+    built without field initialisation, the driver called with the caller's raw / offset; a
+    PacketError gets the packet attached; under silent every failure becomes None, otherwise it
+    propagates -- however the try / except / else and the silent tests are arranged"""
     repo = ctx.repo
     fi = repo.cls('Packet').methods.get('unpack')
     if fi is None:
         raise Undecided('anchor Packet.unpack not found')
     ctx.unit('functions')
-    w = repo.walker()
-    paths = w.paths(fi.node, cls=fi.cls)
-    neg = [p for p in paths if 'not isinstance(raw, bytes)' in p.guard_texts()]
-    pos = [p for p in paths if 'isinstance(raw, bytes)' in p.guard_texts()]
-    st = 'type check of raw'
-    if not neg or not pos:
-        ctx.violation(rule, fi, st, 'no isinstance(raw, bytes) test guards the parse: non-bytes input is not rejected with ValueError', fi.node.lineno)
-    else:
-        ok = True
-        for p in neg:
-            # nothing but building the message may happen before the raise
-            if not (p.raises() and p.end[1] is not None and call_name(p.end[1]) == 'ValueError'):
-                ok = ctx.violation(rule, fi, st, 'the non-bytes path does not end in raise ValueError: %s' % p.describe()['end'], fi.node.lineno)
-            bad = [e for e in p.calls() if call_name(e.call) not in ('isinstance', 'type', 'ValueError', 'repr', 'str')]
-            if bad:
-                ok = ctx.violation(rule, fi, st, 'work is done before rejecting non-bytes input: %s' % bad[0].text(), bad[0].lineno)
-        for p in paths:
-            if p in neg:
-                continue
-            first = p.guards[0] if p.guards else None
-            if first is None or canon(first[0]) not in ('isinstance(raw, bytes)', 'not isinstance(raw, bytes)'):
-                # the type test must be the first decision
-                if any(e.kind in ('call', 'setattr') and call_name(e.call) not in ('isinstance',) for e in p.effects[:1]) and 'isinstance(raw, bytes)' not in p.guard_texts():
-                    ok = ctx.violation(rule, fi, st, 'a path reaches the parser without the bytes check', fi.node.lineno)
-        if ok:
-            ctx.holds(rule, fi, st, 'not isinstance(raw, bytes) -> ValueError before any other work', fi.node.lineno)
-    # handlers: silent -> None
-    tr = D.handlers_of(fi.node) if hasattr(D, 'handlers_of') else None
-    from ..model import handlers_of
-    tr = handlers_of(fi.node)
-    if tr is None:
-        ctx.violation(rule, fi, 'Packet.unpack', 'no try statement: silent mode cannot return None', fi.node.lineno)
-        return
-    types = [unparse(h.type) if h.type is not None else None for h in tr.handlers]
-    if not any(t in (None, 'Exception', 'BaseException') for t in types):
-        ctx.violation(rule, fi, 'handlers %s' % types, 'no catch-all handler: silent=True does not cover every failure', tr.lineno)
-    for h in tr.handlers:
-        hp = w.block_paths(h.body)
-        st = 'except %s: %s' % (unparse(h.type) if h.type else '<all>', '; '.join(stmt_text(s) for s in h.body))
-        ok = True
-        saw_silent = False
-        for p in hp:
-            g = p.guard_texts()
-            if 'silent' in g:
-                saw_silent = True
-                if not (p.end[0] == 'return' and (p.end[1] is None or (isinstance(p.end[1], ast.Constant) and p.end[1].value is None))):
-                    ok = ctx.violation(rule, fi, st, 'under silent the handler does not return None (%s)' % p.describe()['end'], h.lineno)
-            else:
-                if not p.raises():
-                    ok = ctx.violation(rule, fi, st, 'without silent the handler swallows the error (%s)' % p.describe()['end'], h.lineno)
-        if not saw_silent:
-            ok = ctx.violation(rule, fi, st, 'the handler does not honour silent', h.lineno)
-        if ok:
-            ctx.holds(rule, fi, st, 'returns None under silent, re-raises otherwise', h.lineno)
-    # call: pkt.unpack_impl(raw, offset, ...)
-    calls = []
-    for p_ in paths:
-        for e_ in p_.calls(lambda e: isinstance(e.call.func, ast.Attribute) and e.call.func.attr == 'unpack_impl'):
-            if canon(e_.call) not in [canon(x) for x in calls]:
-                calls.append(e_.call)
-    for c in calls:
-        a = D.args_of(c, ['raw', 'offset'])
-        st = canon(c)[:140]
-        if a is None or canon(a['raw']) != 'raw' or canon(a['offset']) != 'offset':
-            ctx.violation(rule, fi, st, 'unpack_impl is not called with (raw, offset) as given by the caller', c.lineno)
+    names = [x.arg for x in fi.node.args.args]
+    if len(names) < 4:
+        raise Undecided('Packet.unpack does not take (cls, raw, offset, silent)')
+    for silent in (False, True):
+        label = 'Packet.unpack, silent=%s' % silent
+        try:
+            code = extract(fi.node, _UnpackEvents(tuple(names[:4]), silent))
+        except Undecided as e:
+            ctx.undecided(rule, fi, label, str(e), fi.node.lineno)
+            continue
+        diff = equivalent(code, compile_spec(_unpack_spec(silent)))
+        if diff is None:
+            ctx.holds(rule, fi, label, 'non-bytes -> ValueError; parse with the caller\'s raw and offset; %s' % ('every failure returns None' if silent else 'failures propagate, a PacketError carries the packet'), fi.node.lineno)
         else:
-            ctx.holds(rule, fi, st, 'the caller\'s raw and offset reach the driver unchanged', c.lineno)
-    if not calls:
-        ctx.undecided(rule, fi, 'Packet.unpack', 'no call of unpack_impl found', fi.node.lineno)
+            trace, which = diff
+            if which == 'only-first':
+                why = 'the code can do [%s] after [%s]; the documented behaviour does not allow it there' % (trace[-1], ' '.join(trace[:-1]))
+            else:
+                why = 'after [%s] the documented behaviour requires [%s], which the code cannot do there' % (' '.join(trace[:-1]), trace[-1])
+            ctx.violation(rule, fi, '%s: %s' % (label, ' '.join(trace)[:300]), why, fi.node.lineno)
 
 
 def check_packet_error_class(ctx):
